@@ -119,6 +119,7 @@ class Evaluator:
         self._stack: list[int] = []
         self._call_aliases: set[str] | None = None
         self.call_ctx: dict = {}  # call term -> [tuple of `with` context terms active at each evaluation of it]
+        self.fuse_treemaps = True  # consecutive leafwise maps are one map (rules that read a staged computation stage by stage switch this off)
         self.inline_private_static = True  # Cls._helper(...) private static helpers are read at the call site (rules name the ones they want opaque)
 
     def call_aliases(self) -> set:
@@ -1664,7 +1665,15 @@ class _Ctx:
         fn, trees = args[0], args[1:]
         leaves = [("leaf", t) for t in trees]
         body = self.call_value(fn, leaves, {})
-        return ("treemap", body, tuple(trees))
+        # tree_map(g, tree_map(f, a, b), c) is tree_map((x, y, z) -> g(f(x, y), z), a, b, c): consecutive leafwise maps fuse
+        out_trees = []
+        for t in trees:
+            if self.ev.fuse_treemaps and is_t(t, "treemap") and not any(is_t(x, "treemap") for x in t[2]):
+                body = subst(body, ("leaf", t), t[1])
+                out_trees.extend(x for x in t[2] if x not in out_trees)
+            elif t not in out_trees:
+                out_trees.append(t)
+        return ("treemap", body, tuple(out_trees))
 
     def vmap(self, f, args, kwargs):
         """f = ('call', jax.vmap, (fn, in_axes?), kw) applied to args"""
